@@ -403,7 +403,7 @@ Proof.
   (split; [reflexivity| intros; try discriminate; rewrite ?orb_true_l, ?orb_true_r; auto]).
 Qed.
 
-(* ---------- the plain statements, for /repo HEAD and for every subset of the open repairs ---------- *)
+(* ---------- the plain statements, uniform in fix_sent / fix_order / fix_l2stop (/repo HEAD = V true false true) ---------- *)
 Lemma accepted_run fs t : accepted fs t = true -> exists m', mon_run fs mst0 t = Some m'.
 Proof. unfold accepted. destruct (mon_run fs mst0 t); [eauto|discriminate]. Qed.
 
